@@ -300,7 +300,17 @@ func (fx *FnCtx) evalSpec(env *Env, e SExpr) Val {
 				ps = append(ps, fx.evalSpec(n, p).T)
 			}
 			fx.inPattern = false
-			body = "(! " + body + " :pattern (" + strings.Join(ps, " ") + "))"
+			pats := " :pattern (" + strings.Join(ps, " ") + ")"
+			for _, grp := range x.AltPats {
+				var gs []string
+				fx.inPattern = true
+				for _, p := range grp {
+					gs = append(gs, fx.evalSpec(n, p).T)
+				}
+				fx.inPattern = false
+				pats += " :pattern (" + strings.Join(gs, " ") + ")"
+			}
+			body = "(! " + body + pats + ")"
 		}
 		_ = pat
 		q := "exists"
@@ -669,6 +679,9 @@ func (fx *FnCtx) specCall(env *Env, c *SCall) Val {
 				h := fx.heapArr(env.heap, dom, "(Array Int (Array "+ks+" Bool))")
 				return Val{"(ite (= " + v.T + " 0) 0 (" + fx.sc.cardFn(ks) + " (select " + h + " " + v.T + ")))", "Int", tInt}
 			}
+		}
+		if v.S == "Int" || v.S == "Any" {
+			fx.fail("spec: len(%s) of a value of sort %s", c.Args[0], v.S)
 		}
 		return Val{fx.sliceLen(v), "Int", tInt}
 	case "cap":
